@@ -162,7 +162,45 @@ def sensitivity(names, quiet=False, runs=None):
     return 1 if bad else 0
 
 
+def suite(names, jobs=4):
+    """Measure, for each catalogued mutant, whether the pinned test suite still passes
+    (scratch copy of trie/ + tests/ + pyproject.toml; nothing under /repo is touched)."""
+    import concurrent.futures as cf
+
+    cat = catalogue()
+    entries = [e for e in cat["mutants"] + cat["quiet"] if not names or e["name"] in names]
+    out_path = os.path.join(env.VERIF_DIR, "selftest", "suite_results.json")
+    try:
+        with open(out_path) as f:
+            results = json.load(f)
+    except FileNotFoundError:
+        results = {}
+
+    def one(e):
+        d = make_copy(e["patches"])
+        try:
+            shutil.copytree(os.path.join(env.REPO, "tests"), os.path.join(d, "tests"), ignore=shutil.ignore_patterns("__pycache__"))
+            shutil.copy(os.path.join(env.REPO, "pyproject.toml"), d)
+            en = dict(os.environ, PYTHONPATH=d, PYTHONDONTWRITEBYTECODE="1")
+            p = subprocess.run(["/venv/bin/python", "-m", "pytest", "-q", "-p", "no:cacheprovider", "--timeout=900", "--continue-on-collection-errors", "-o", "addopts="], cwd=d, env=en, capture_output=True, text=True, timeout=3000)
+            tail = p.stdout.strip().splitlines()[-1] if p.stdout.strip() else p.stderr[-200:]
+            return e["name"], tail
+        finally:
+            shutil.rmtree(d, ignore_errors=True)
+
+    with cf.ThreadPoolExecutor(max_workers=jobs) as ex:
+        for name, tail in ex.map(one, entries):
+            passed = "215 passed" in tail and "failed" not in tail
+            results[name] = {"suite_passes": passed, "summary": tail}
+            print(f"suite {name}: {'PASSES (survives the tests)' if passed else 'caught by the tests'}  [{tail}]")
+            with open(out_path, "w") as f:
+                json.dump(results, f, indent=1, sort_keys=True)
+    return 0
+
+
 def main(cmd, argv):
+    if cmd == "selftest-suite":
+        return suite(argv)
     if cmd == "selftest-determinism":
         return determinism(argv)
     if cmd == "selftest-sensitivity":
